@@ -744,32 +744,65 @@ func showSlotStable(v any) string {
 
 func c15Readers(c *fw.Ctx, r *rng.R) {
 	n := r.Range(1, 12)
-	vals := c15Values(r, n)
+	if r.Chance(1, 10) {
+		n = []int{40, 100, 300}[r.Intn(3)] // many fields / elements
+	}
 	g := r.Range(2, 16)
 	procs := []int{1, 4, 16}[r.Intn(3)]
+	deep := 0
+	if r.Chance(1, 10) {
+		deep = []int{1200, 2000}[r.Intn(2)]
+		g = r.Range(10, 16)
+	}
 	in := func() string {
 		return fmt.Sprintf("%d goroutines running read-only operations on one shared list (%d elements) and one shared object, GOMAXPROCS=%d", g, n, procs)
 	}
 	watched(c, in, func() {
 		runtime.GOMAXPROCS(procs)
 		setHookTable(nil)
-		l, how := buildReceiverList(r, vals)
-		shared := at.NewList(1, "x", 2.5)
-		l.Add(shared) // a nested list that also sits in the object (shared child)
-		o := at.NewObject("nested", at.NewObject("list", at.NewList(1, 2, 3)), "shared", shared, "str", "s", "int", 1)
-		for i, v := range vals {
-			o.Set(fmt.Sprintf("key%02d", i), v)
+		// two identical containers are built from copies of the same PRNG state: the twin gives the sequential
+		// results, the shared one is not touched by any read before the concurrent phase starts (so that the
+		// concurrent reads are the first reads it ever sees)
+		build := func(rr *rng.R) (at.List, at.Object, string) {
+			vv := c15Values(rr, n)
+			l, how := buildReceiverList(rr, vv)
+			shared := at.NewList(1, "x", 2.5)
+			l.Add(shared) // a nested list that also sits in the object (shared child)
+			o := at.NewObject("nested", at.NewObject("list", at.NewList(1, 2, 3)), "shared", shared, "str", "s", "int", 1)
+			for i, v := range vv {
+				o.Set(fmt.Sprintf("key%02d", i), v)
+			}
+			if deep > 0 {
+				// a deep chain below both containers
+				var chain any = at.NewList(1, 2, 3)
+				for d := 0; d < deep; d++ {
+					if d%2 == 0 {
+						chain = at.NewList(chain)
+					} else {
+						chain = at.NewObject("d", chain)
+					}
+				}
+				l.Add(chain)
+				o.Set("deep", chain)
+			}
+			return l, o, how
 		}
-		// sequential results first
+		r1, r2 := *r, *r
+		twinL, twinO, _ := build(&r1)
+		l, o, how := build(&r2)
+		*r = r2
 		want := make([]string, len(readOps))
 		for i, op := range readOps {
-			want[i] = protectStr(func() string { return op.f(l, o) })
+			want[i] = protectStr(func() string { return op.f(twinL, twinO) })
 		}
-		beforeL, beforeO := stringCanon(l), stringCanon(o)
+		beforeL, beforeO := stringCanon(twinL), stringCanon(twinO)
 		// plans per goroutine
 		plans := make([][]int, g)
 		for i := range plans {
 			k := r.Range(5, 25)
+			if deep > 0 {
+				k = r.Range(3, 6)
+			}
 			plans[i] = make([]int, k)
 			for j := range plans[i] {
 				plans[i][j] = r.Intn(len(readOps))
@@ -812,13 +845,16 @@ func c15Readers(c *fw.Ctx, r *rng.R) {
 			}
 		}
 		c.SetAdd("reader_receiver_routes", how)
-		c.DistinctHash(spec.Hash(fmt.Sprint(plans, vals, procs)))
+		c.DistinctHash(spec.Hash(fmt.Sprint(plans, n, deep, procs, how)))
+		if deep > 0 {
+			c.Count("reader_cases_deep")
+		}
 		if len(diffs) > 0 {
 			c.Violate("concurrent-read-differs-from-sequential", in(), "the sequential results", strings.Join(diffs, "\n"))
 			return
 		}
 		if stringCanon(l) != beforeL || stringCanon(o) != beforeO {
-			c.Violate("read-only-operation-modifies-container", in(), beforeL+" / "+beforeO, stringCanon(l)+" / "+stringCanon(o))
+			c.Violate("read-only-operation-modifies-container", in(), spec.Trunc(beforeL, 400)+" / "+spec.Trunc(beforeO, 400), spec.Trunc(stringCanon(l), 400)+" / "+spec.Trunc(stringCanon(o), 400))
 		}
 	})
 }
